@@ -17,19 +17,24 @@ structure Phase where
   ochan : Chan
   cleared : Bool
 
-def phaseOf : WinPc → Phase
+def phaseOf (g : Bool) : WinPc → Phase
   | .unlock    => ⟨.shutdown, false, false, 0, false, false, .open, false⟩
   | .closeRead => ⟨.shutdown, false, false, 0, false, false, .open, false⟩
-  | .closeDone => ⟨.shutdown, true, false, 0, false, false, .open, false⟩
-  | .notify    => ⟨.shutdown, true, true, 0, false, false, .open, false⟩
-  | .spawn     => ⟨.shutdown, true, true, 1, false, false, .open, false⟩
-  | .wait      => ⟨.shutdown, true, true, 1, false, false, .open, false⟩
-  | .shutWrite => ⟨.shutdown, true, true, 1, true, false, .open, false⟩
-  | .setTerm   => ⟨.shutdown, true, true, 1, true, true, .open, false⟩
-  | .closeOut  => ⟨.terminated, true, true, 1, true, true, .open, false⟩
-  | .clear     => ⟨.terminated, true, true, 1, true, true, .closed, false⟩
-  | .finished  => ⟨.terminated, true, true, 1, true, true, .nil, true⟩
-  | .dead      => ⟨.terminated, true, true, 1, true, true, .nil, true⟩
+  | .closeDone => ⟨.shutdown, !g, false, 0, false, false, .open, false⟩
+  | .setDl     => ⟨.shutdown, !g, true, 0, false, false, .open, false⟩
+  | .notify    => ⟨.shutdown, !g, true, 0, false, false, .open, false⟩
+  | .spawn     => ⟨.shutdown, !g, true, 1, false, false, .open, false⟩
+  | .wait      => ⟨.shutdown, !g, true, 1, false, false, .open, false⟩
+  | .shutWrite => ⟨.shutdown, !g, true, 1, true, false, .open, false⟩
+  | .setTerm   => ⟨.shutdown, !g, true, 1, true, true, .open, false⟩
+  | .closeOut  => ⟨.terminated, !g, true, 1, true, true, .open, false⟩
+  | .clear     => ⟨.terminated, !g, true, 1, true, true, .closed, false⟩
+  | .finished  => ⟨.terminated, !g, true, 1, true, true, .nil, true⟩
+  | .dead      => ⟨.terminated, !g, true, 1, true, true, .nil, true⟩
+
+/-- which pcs belong to which path: CloseRead and the detached finally are ForceClose's, the deadline is Close's -/
+def pathOk (g : Bool) : WinPc → Bool
+  | .closeRead => !g | .spawn => !g | .setDl => g | _ => true
 
 def wcount : WPc → Nat
   | .idle => 0 | .exited => 0 | _ => 1
@@ -40,10 +45,10 @@ structure Inv1 (s : State) : Prop where
   noDup : s.dupWin = false
   none_ : s.win = none → (s.st = .init ∨ s.st = .running) ∧ s.readShut = false ∧ s.done = false ∧
     s.offered = [] ∧ s.writeShut = false ∧ s.ochan = .open ∧ s.cleared = false
-  some_ : ∀ w, s.win = some w → w.pc ≠ .dead ∧ s.st = (phaseOf w.pc).st ∧ s.readShut = (phaseOf w.pc).readShut ∧
-    s.done = (phaseOf w.pc).done ∧ s.offered = List.replicate (phaseOf w.pc).offered w.err ∧
-    ((phaseOf w.pc).gone = true → s.w = .exited ∧ s.r = .exited) ∧
-    s.writeShut = (phaseOf w.pc).writeShut ∧ s.ochan = (phaseOf w.pc).ochan ∧ s.cleared = (phaseOf w.pc).cleared
+  some_ : ∀ w, s.win = some w → (w.pc ≠ .dead ∧ pathOk w.graceful w.pc = true) ∧ s.st = (phaseOf w.graceful w.pc).st ∧ s.readShut = (phaseOf w.graceful w.pc).readShut ∧
+    s.done = (phaseOf w.graceful w.pc).done ∧ s.offered = List.replicate (phaseOf w.graceful w.pc).offered w.err ∧
+    ((phaseOf w.graceful w.pc).gone = true → s.w = .exited ∧ s.r = .exited) ∧
+    s.writeShut = (phaseOf w.graceful w.pc).writeShut ∧ s.ochan = (phaseOf w.graceful w.pc).ochan ∧ s.cleared = (phaseOf w.graceful w.pc).cleared
   init_ : s.st = .init → s.w = .idle ∧ s.r = .idle
   started : s.st ≠ .init → s.w ≠ .idle ∧ s.r ≠ .idle
   wg_ : s.wg = wcount s.w + rcount s.r
@@ -74,7 +79,7 @@ theorem inv1_win {cfg : Cfg} {s s' : State} (h : Inv1 s) (hs : stepWin cfg s = s
   | some w =>
     have hw3 := h3 w hw
     simp only [hw] at hs
-    cases hp : w.pc <;> simp only [hp, setWin] at hs <;> simp only [hp, phaseOf] at hw3
+    cases hp : w.pc <;> simp only [hp, setWin] at hs <;> simp only [hp, phaseOf, pathOk] at hw3
     case wait =>
       split at hs
       · next hwg =>
@@ -82,11 +87,11 @@ theorem inv1_win {cfg : Cfg} {s s' : State} (h : Inv1 s) (hs : stepWin cfg s = s
         have hst : s.st ≠ .init := by simp [hw3.2.1]
         have h5' := h5 hst
         rw [hwg] at h6
-        constructor <;> simp_all [phaseOf]
+        constructor <;> simp_all [phaseOf, pathOk]
         cases hww : s.w <;> cases hrr : s.r <;> simp_all [wcount, rcount]
       · simp at hs
     all_goals (repeat' (split at hs))
-    all_goals (first | (injection hs with hs; subst hs; constructor <;> simp_all [phaseOf]) | (simp at hs))
+    all_goals (first | (injection hs with hs; subst hs; constructor <;> simp_all [phaseOf, pathOk]) | (simp at hs))
 
 /-- steps that leave the fields `Inv1` talks about alone -/
 theorem inv1_frame {s s' : State} (h : Inv1 s) (e1 : s'.dupWin = s.dupWin) (e2 : s'.win = s.win)
@@ -133,7 +138,7 @@ theorem inv1_elect {s s' : State} {g : Bool} {e : Err} {c c' : CPc} (h : Inv1 s)
         simp only [hw, Option.some.injEq, Prod.mk.injEq] at hs; obtain ⟨rfl, _⟩ := hs
         have := h2 hw
         refine ⟨?_, rfl, rfl, rfl, rfl, rfl⟩
-        constructor <;> simp_all [phaseOf]
+        constructor <;> simp_all [phaseOf, pathOk]
       | some w =>
         have := (h3 w hw).2.1
         rw [hrun] at this
@@ -313,6 +318,15 @@ macro "inv1_reader" h:ident hs:ident : tactic => `(tactic| (
        exact inv1_r $h rfl rfl rfl rfl rfl rfl rfl rfl rfl rfl (by simp_all) (by simp))
     | (simp at $hs:ident))))
 
+theorem inv1_rArm {s s' : State} (h : Inv1 s) (hs : stepRArm s = some s') : Inv1 s' := by
+  unfold stepRArm at hs; inv1_reader h hs
+theorem inv1_rChk {s s' : State} (h : Inv1 s) (hs : stepRChk s = some s') : Inv1 s' := by
+  unfold stepRChk at hs
+  split at hs
+  · next hr =>
+    injection hs with hs; subst hs
+    exact inv1_r h rfl rfl rfl rfl rfl rfl rfl rfl rfl rfl (by simp [hr]) (by simp; split <;> simp)
+  · simp at hs
 theorem inv1_rFrame {s s' : State} (h : Inv1 s) (hs : stepRFrame s = some s') : Inv1 s' := by
   unfold stepRFrame at hs; inv1_reader h hs
 theorem inv1_rErr {s s' : State} {eof : Bool} (h : Inv1 s) (hs : stepRErr s eof = some s') : Inv1 s' := by
@@ -345,7 +359,7 @@ theorem inv1_rNil {s s' : State} (h : Inv1 s) (hs : stepRNil s = some s') : Inv1
         have h3 := h.some_ w hw
         have hcl := h3.2.2.2.2.2.2.2.2
         rw [hc] at hcl
-        have hg : (phaseOf w.pc).gone = true := by
+        have hg : (phaseOf w.graceful w.pc).gone = true := by
           cases hp : w.pc <;> simp [hp, phaseOf] at hcl ⊢
         have := (h3.2.2.2.2.2.1 hg).2
         rw [hr] at this; simp at this
@@ -383,6 +397,8 @@ theorem inv1_step {cfg : Cfg} {s s' : State} (a : Action) (h : Inv1 s) (hs : ste
   case wWrite => exact inv1_wWrite h hs
   case wFlush => exact inv1_wFlush h hs
   case wWgDone => exact inv1_wWgDone h hs
+  case rArm => exact inv1_rArm h hs
+  case rChk => exact inv1_rChk h hs
   case rFrame => exact inv1_rFrame h hs
   case rErr => exact inv1_rErr h hs
   case rNil => exact inv1_rNil h hs
